@@ -1,6 +1,13 @@
 import argparse, fcntl, glob, hashlib, json, os, re, shutil, subprocess, sys, time
 from concurrent.futures import ThreadPoolExecutor
 
+import resource
+try:  # coqc parses 64 KiB list literals (firmware images in case files): the default 8 MiB stack overflows
+    _h = resource.getrlimit(resource.RLIMIT_STACK)[1]
+    resource.setrlimit(resource.RLIMIT_STACK, (_h, _h))
+except (ValueError, OSError):
+    pass
+
 ROOT = os.path.dirname(os.path.dirname(os.path.abspath(__file__)))
 COQ = os.path.join(ROOT, "coq")
 GEN = os.path.join(COQ, "gen")
